@@ -27,7 +27,8 @@ RULE = ('cases = provider {C-ECHO, C-STORE, C-FIND, C-MOVE, N-ACTION (+ its N-EV
         'the C-GET user} x message ids {0,1,255,256,32767,32768,65535 + seeded} x context ids x '
         'SOP instance UIDs x handler outcome {success, warning, failure, EventHandlingError where '
         'documented} x seeded schedule; oracle = reference command reader on the wire; '
-        'non-trivial = every case; distinct = distinct (provider, ids, outcome)')
+        'non-trivial = every case; distinct = distinct (provider, ids, outcome)'
+        '; concurrent family: 2-3 associations clashing on context ids / syntaxes under line-level pre-emption in the encoders; second request on another context of the same class')
 ASSUMPTIONS = ['data sets are built/read with pydicom (trusted for data sets; commands and PDUs '
                'are judged by R-codec)', 'EventHandlingError is only injected into providers that '
                'document a failure status for it (echo, store, n-action, n-event-report, c-get '
